@@ -198,6 +198,34 @@ def _limit_mem():
     resource.setrlimit(resource.RLIMIT_AS, (MEM_LIMIT_BYTES, MEM_LIMIT_BYTES))
 
 
+def _run_group(cmd, timeout, env, cwd, preexec_fn=None):
+    """subprocess.run with its own process group: on timeout the WHOLE group (cargo -> kani-driver -> cbmc) is
+    killed, so no solver is left running behind the check"""
+    import signal
+
+    def _pre():
+        os.setsid()
+        if preexec_fn:
+            preexec_fn()
+    p = subprocess.Popen(cmd, cwd=cwd, env=env, stdout=subprocess.PIPE, stderr=subprocess.STDOUT, text=True, preexec_fn=_pre)
+    try:
+        out, _ = p.communicate(timeout=timeout)
+        return subprocess.CompletedProcess(cmd, p.returncode, out, None)
+    except subprocess.TimeoutExpired:
+        try:
+            os.killpg(p.pid, signal.SIGKILL)
+        except ProcessLookupError:
+            pass
+        out, _ = p.communicate()
+        raise subprocess.TimeoutExpired(cmd, timeout, output=out)
+    finally:
+        # kani-driver may leave cbmc children of a harness that hit --harness-timeout: reap the group
+        try:
+            os.killpg(p.pid, signal.SIGKILL)
+        except (ProcessLookupError, PermissionError):
+            pass
+
+
 def _limit_mem_heavy():
     import resource
     lim = int(os.environ.get('VERIF_KANI_MEM_HEAVY_GB', '48')) * (1 << 30)
@@ -236,8 +264,7 @@ def run_harnesses(names, tier='quick', jobs=None):
                 cmd += ['--harness', h]
             t0 = time.time()
             try:
-                p = subprocess.run(cmd, cwd=WS, env=_env(), stdout=subprocess.PIPE, stderr=subprocess.STDOUT, text=True,
-                                   timeout=tmax * (1 + len(hs) // njobs) + 1200, preexec_fn=limit_fn)
+                p = _run_group(cmd, tmax * (1 + len(hs) // njobs) + 1200, _env(), WS, preexec_fn=limit_fn)
                 out = p.stdout
             except subprocess.TimeoutExpired as e:
                 out = (e.stdout or b'').decode() if isinstance(e.stdout, bytes) else (e.stdout or '')
@@ -312,7 +339,7 @@ def witness(harness, crate, timeout=420):
     """re-run one failed harness with concrete playback; returns {'test': text, 'values': [...]}"""
     cmd = ['cargo', 'kani', '-p', crate, '-Z', 'function-contracts', '-Z', 'stubbing', '-Z', 'concrete-playback', '--concrete-playback=print',
            '--output-format', 'terse', '--harness', harness, '--target-dir', TARGET]
-    p = subprocess.run(cmd, cwd=WS, env=_env(), stdout=subprocess.PIPE, stderr=subprocess.STDOUT, text=True, timeout=timeout)
+    p = _run_group(cmd, timeout, _env(), WS, preexec_fn=_limit_mem)
     m = re.search(r'```\s*\n((?:(?!```).)*?#\[test\].*?)```', p.stdout, re.S)
     if not m:
         return {'error': 'kani printed no concrete playback test', 'cmd': ' '.join(cmd)}
@@ -353,7 +380,7 @@ def playback(harness, test_text, timeout=1200):
         env = _env()
         env['CARGO_TARGET_DIR'] = TARGET_PB
         cmd = ['cargo', 'kani', 'playback', '-Z', 'concrete-playback', '-p', meta['crate'], '--', name]
-        p = subprocess.run(cmd, cwd=WS, env=env, stdout=subprocess.PIPE, stderr=subprocess.STDOUT, text=True, timeout=timeout)
+        p = _run_group(cmd, timeout, env, WS)
         out = '\n'.join(l for l in p.stdout.split('\n') if not l.startswith('warning'))
         reproduced = ('test result: FAILED' in out) or ('panicked at' in out)
         ran = 'running 1 test' in out
